@@ -163,6 +163,14 @@ Theorem C10_local_deletion_only_due : forall s scan t k, ~ has_due s scan t k ->
 Proof. exact local_tick_safe. Qed.
 Print Assumptions C10_local_deletion_only_due.
 
+(* the index entries are exactly the expiries that were asked for: in every trace of writes and deleter ticks from
+   the empty store, an entry (when, t, k) was recorded by an earlier SETEX / *EXPIRE on (t, k) with
+   when = floor(ts / 1e9) + duration; together with the two theorems above: nothing is removed before the time it was given *)
+Theorem C10_local_index_provenance : forall ops e, In e (tidx (lfinal empty_store ops)) ->
+  exists ts c, In (LW ts c) ops /\ requested ts c e.
+Proof. intros ops e H. destruct (local_index_requested ops empty_store e H) as [[] | X]; exact X. Qed.
+Print Assumptions C10_local_index_provenance.
+
 (* ---- non-vacuity ---- *)
 (* SETEX k 10 v at second 100: live 1 ns before second 110, absent at it *)
 Example C10_ex_setex :
